@@ -168,6 +168,77 @@ mod probes {
         notes
     }
 
+    /// C18: the run-time checks of the settings conversions.  Every combination of arena state
+    /// (unallocated / allocated / claimed through a leaked guard), target GUARANTEED_ALLOCATED,
+    /// target CLAIMABLE and target MIN_ALIGN, for `Bump::with_settings`, `BumpScope::with_settings`,
+    /// `borrow_with_settings` and `borrow_mut_with_settings` (where the types allow the call).
+    /// Returns trace lines `S <conversion> <state> <ga> <claimable> <panicked>` for the model
+    /// (coq/Conv.v conversion_panics) and monitor notes.
+    pub fn settings_probe(r: &mut Rng) -> (Vec<String>, Vec<String>) {
+        use bump_scope::BumpScope;
+        let mut lines: Vec<String> = vec![];
+        let mut notes: Vec<String> = vec![];
+        // source: MIN_ALIGN 1, up, not guaranteed allocated, claimable
+        type S0 = BumpSettings<1, true, false, true>;
+        let odd = r.range(1, 7) as usize;
+        let make = |state: u8| -> Bump<Global, S0> {
+            match state {
+                0 => Bump::unallocated(),
+                1 => { let b: Bump<Global, S0> = Bump::new(); for _ in 0..odd { b.alloc(1u8); } b }
+                _ => { let b: Bump<Global, S0> = Bump::new(); for _ in 0..odd { b.alloc(1u8); } core::mem::forget(b.claim()); b }
+            }
+        };
+        let sname = ["unallocated", "allocated", "claimed"];
+        macro_rules! by_value {
+            ($ma:literal, $ga:literal, $c:literal) => {{
+                for state in 0u8..3 {
+                    let b = make(state);
+                    let res = catch_unwind(AssertUnwindSafe(move || {
+                        let b2: Bump<Global, BumpSettings<$ma, true, $ga, $c>> = b.with_settings();
+                        let pos = b2.stats().current_chunk().map_or(0, |c| c.bump_position().as_ptr() as usize);
+                        core::mem::forget(b2);   // a claimed arena is leaked by its Drop anyway
+                        pos
+                    }));
+                    lines.push(format!("S by_value {} {} {} {}", sname[state as usize], $ga as u8, $c as u8, res.is_err() as u8));
+                    if let Ok(pos) = res { if state == 1 && pos % $ma != 0 { notes.push(format!("position-not-multiple-of-min-align: after Bump::with_settings from MIN_ALIGN 1 to {} the position is {pos:#x}", $ma)); } }
+                }
+                // BumpScope by value (never unallocated)
+                for state in 1u8..3 {
+                    let mut b: Bump<Global, S0> = Bump::new();
+                    for _ in 0..odd { b.alloc(1u8); }
+                    let res = catch_unwind(AssertUnwindSafe(|| {
+                        b.scoped(|sc| {
+                            let sc: BumpScope<'_, Global, S0> = sc.by_value();
+                            if state == 2 { core::mem::forget(sc.claim()); }
+                            let sc2: BumpScope<'_, Global, BumpSettings<$ma, true, $ga, $c>> = sc.with_settings();
+                            let pos = sc2.stats().current_chunk().map_or(0, |c| c.bump_position().as_ptr() as usize);
+                            pos
+                        })
+                    }));
+                    lines.push(format!("S scope_by_value {} {} {} {}", sname[state as usize], $ga as u8, $c as u8, res.is_err() as u8));
+                    if let Ok(pos) = res { if state == 1 && pos % $ma != 0 { notes.push(format!("position-not-multiple-of-min-align: after BumpScope::with_settings from MIN_ALIGN 1 to {} the position is {pos:#x}", $ma)); } }
+                    core::mem::forget(b);
+                }
+            }};
+        }
+        by_value!(1, false, false); by_value!(1, false, true); by_value!(1, true, false); by_value!(1, true, true);
+        by_value!(8, false, false); by_value!(8, false, true); by_value!(8, true, false); by_value!(8, true, true);
+        // the borrow conversions have compile-time checks only: they never panic, whatever the state
+        for state in 0u8..3 {
+            let mut b = make(state);
+            let r1 = catch_unwind(AssertUnwindSafe(|| { let _x: &Bump<Global, BumpSettings<1, true, false, true>> = b.borrow_with_settings(); }));
+            lines.push(format!("S borrow {} 0 1 {}", sname[state as usize], r1.is_err() as u8));
+            let r2 = catch_unwind(AssertUnwindSafe(|| {
+                let x: &mut Bump<Global, BumpSettings<8, true, false, true>> = b.borrow_mut_with_settings();
+                x.stats().current_chunk().map_or(0, |c| c.bump_position().as_ptr() as usize)
+            }));
+            lines.push(format!("S borrow_mut {} 0 1 {}", sname[state as usize], r2.is_err() as u8));
+            if let Ok(pos) = r2 { if state == 1 && pos % 8 != 0 { notes.push(format!("position-not-multiple-of-min-align: after borrow_mut_with_settings from MIN_ALIGN 1 to 8 the position is {pos:#x}")); } }
+            core::mem::forget(b);
+        }
+        (lines, notes)
+    }
+
     pub fn entry_probe(r: &mut Rng) -> Vec<String> {
         let mut notes: Vec<String> = vec![];
         match r.below(6) {
